@@ -163,6 +163,17 @@ Section EngineRelProofs.
       apply IH. exact Hn.
   Qed.
 
+  (* ... and as lists: the stored layouts of all nodes, in preorder *)
+  Theorem trel_lays : forall t t', trel t t' -> Forall2 RL (lays S In Out Lay t) (lays S In Out Lay t').
+  Proof.
+    induction t as [s c l kids IH] using tree_ind6. intros t' H.
+    inversion H as [s0 s' c0 c' l0 l' k0 kids' Hs Hc Hl HK]; subst; cbn [lays].
+    constructor; [exact Hl|]. clear H. induction HK as [|x y r r' Hxy Hr IHr]; cbn [flat_map]; [constructor|].
+    apply Forall2_app.
+    - inversion IH; subst. auto.
+    - apply IHr. inversion IH; subst. assumption.
+  Qed.
+
   (* ---------------------------------------------------------------------------- memoised evaluation *)
 
   Section Memo.
@@ -303,12 +314,15 @@ Section Closure.
     Forall (fun x => forall n, R x (f n x)) l -> forall n, Forall2 R l (map_from f n l).
   Proof. induction 1 as [|x l Hx Hl IH]; intros n; cbn; constructor; [apply Hx|apply IH]. Qed.
 
-  Theorem skrel_map_where (g : S -> S) :
-    (forall s, RS s s) -> (forall s, RS s (g s)) -> forall t w, skrel S RS t (sk_map_where S g w t).
+  Theorem skrel_map_where (g : S -> S) (P : S -> Prop) :
+    (forall s, P s -> RS s s) -> (forall s, P s -> RS s (g s)) ->
+    forall t w, sk_all S P t -> skrel S RS t (sk_map_where S g w t).
   Proof.
-    intros Hrefl Hg. induction t as [s kids IH] using sk_ind3. intros w. cbn [sk_map_where].
+    intros Hrefl Hg. induction t as [s kids IH] using sk_ind3. intros w Hall. cbn [sk_map_where].
+    inversion Hall as [s0 k0 Hs Hkids]; subst.
     constructor; [destruct (w []); auto|].
-    apply map_from_rel. clear -IH. induction IH as [|x l Hx Hl IHl]; constructor; [|exact IHl].
-    intros n. apply Hx.
+    apply map_from_rel. clear -IH Hkids. induction IH as [|x l Hx Hl IHl]; constructor.
+    - intros n. apply Hx. inversion Hkids; assumption.
+    - apply IHl. inversion Hkids; assumption.
   Qed.
 End Closure.
